@@ -175,6 +175,8 @@ pub(crate) const FUNC_TABLE: FuncTable = FuncTable {
 
 fn func_random(ctx: &EvalContext, args: &[Expr]) -> Result<i64, ExprError> {
     let max = args[0].eval(ctx)?;
+    #[cfg(feature = "verif-hooks")]
+    let ctx = &crate::verif_hooks::DrawRecorder { ctx, bound: max };
     Ok(ctx.random(1..max))
 }
 
